@@ -122,6 +122,14 @@ def codecOp (toks : List String) : Option String :=
       | some hb, some fs => some (encOp fam hb name fs)
       | _, _ => none
     else none
+  | ["enc2", fam, hdr, name, fields, _staleName, _staleFields] =>
+    -- a Message that still holds the body of an earlier message (a recycled object): the encoders dispatch on the header's message
+    -- type, so the result is that of the named body alone (in the model a family holds at most the body the dispatch selects)
+    if hdr.startsWith "hdr=" then
+      match hexToBytes (hdr.drop 4).toString, parseFields fields with
+      | some hb, some fs => some (encOp fam hb name fs)
+      | _, _ => none
+    else none
   | ["rt4", h] => (hexToBytes h).map rt4
   | ["canon", h] => (hexToBytes h).map fun inp =>
       match plainDecode top (some inp) with
